@@ -66,7 +66,7 @@ func Replay(path string) int {
 	hit := false
 	for _, v := range x.Viol {
 		fmt.Printf("VERDICT %s %s: %s\n", v.Prop, v.Kind, v.Msg)
-		if v.Prop == f.Prop && v.Kind == f.Kind {
+		if (v.Prop == f.Prop && v.Kind == f.Kind) || v.Prop+":"+v.Kind == f.Kind {
 			hit = true
 		}
 	}
